@@ -1,36 +1,24 @@
-/- GENERATED from the Go source by /verif/extract on every run. Do not edit. -/
-import TunnoxModel.Model.PredPrelude
-open Tunnox.PredPrelude
-namespace Gen
+import TunnoxModel.Gen.CrossNode
+/-!
+# C10 — ties of the model to the current Go source (T2)
 
-namespace crossnode
-def FrameTypeData : Nat := 1
-def FrameTypeTargetReady : Nat := 2
-def FrameTypeClose : Nat := 3
-def FrameTypeAck : Nat := 4
-def FrameTypeHTTPProxy : Nat := 5
-def FrameTypeHTTPResponse : Nat := 6
-def FrameTypeDNSQuery : Nat := 7
-def FrameTypeDNSResponse : Nat := 8
-def FrameTypeEOF : Nat := 9
-def FrameTypeCommand : Nat := 16
-def FrameTypeCommandResponse : Nat := 17
-def FrameHeaderSize : Nat := 21
-def MaxFrameSize : Nat := 65536
-end crossnode
+`Gen.Skel.*` / `Gen.Flow.*` are regenerated from `internal/protocol/session/crossnode/{frame,stream}.go`
+on every run.  Each theorem below pins the call skeleton, resp. the complete normalized control flow
+(guards, their order, offset arithmetic, error-message texts; logging and comments excluded) of one
+function that `Model/C10.lean` mirrors.  Any edit of such a function breaks the corresponding theorem
+and forces the model (and with it every proof in `Props/C10.lean`) to be re-examined.
+-/
+namespace Tunnox.C10.Ties
 
-namespace Skel
-def FrameStream_Close : List String := ["writeMu.Lock", "writeMu.Unlock", "WriteFrame", "conn.MarkBroken"]
-def FrameStream_CloseWrite : List String := ["writeMu.Lock", "writeMu.Unlock", "WriteFrame", "conn.MarkBroken"]
-def FrameStream_Read : List String := ["readMu.Lock", "readMu.Unlock", "copy", "ReadFrame", "isConnectionClosedError", "conn.MarkBroken", "isConnectionClosedError", "copy"]
-def FrameStream_Write : List String := ["writeMu.Lock", "writeMu.Unlock", "WriteFrame", "conn.MarkBroken", "WriteFrame", "conn.MarkBroken"]
-def ReadFrame : List String := ["ReadFrameFromReader"]
-def ReadFrameFromReader : List String := ["make", "io.ReadFull", "binary.BigEndian.Uint32", "coreerrors.Newf", "make", "io.ReadFull"]
-def WriteFrame : List String := ["coreerrors.Newf", "make", "copy", "binary.BigEndian.PutUint32", "bufs.WriteTo"]
-end Skel
+theorem skel_FrameStream_Close : Gen.Skel.FrameStream_Close = ["writeMu.Lock", "writeMu.Unlock", "WriteFrame", "conn.MarkBroken"] := by decide
+theorem skel_FrameStream_CloseWrite : Gen.Skel.FrameStream_CloseWrite = ["writeMu.Lock", "writeMu.Unlock", "WriteFrame", "conn.MarkBroken"] := by decide
+theorem skel_FrameStream_Read : Gen.Skel.FrameStream_Read = ["readMu.Lock", "readMu.Unlock", "copy", "ReadFrame", "isConnectionClosedError", "conn.MarkBroken", "isConnectionClosedError", "copy"] := by decide
+theorem skel_FrameStream_Write : Gen.Skel.FrameStream_Write = ["writeMu.Lock", "writeMu.Unlock", "WriteFrame", "conn.MarkBroken", "WriteFrame", "conn.MarkBroken"] := by decide
+theorem skel_ReadFrame : Gen.Skel.ReadFrame = ["ReadFrameFromReader"] := by decide
+theorem skel_ReadFrameFromReader : Gen.Skel.ReadFrameFromReader = ["make", "io.ReadFull", "binary.BigEndian.Uint32", "coreerrors.Newf", "make", "io.ReadFull"] := by decide
+theorem skel_WriteFrame : Gen.Skel.WriteFrame = ["coreerrors.Newf", "make", "copy", "binary.BigEndian.PutUint32", "bufs.WriteTo"] := by decide
 
-namespace Flow
-def ReadFrameFromReader : List String := [
+theorem flow_ReadFrameFromReader : Gen.Flow.ReadFrameFromReader = [
   "if r == nil",
   "err = coreerrors.New(coreerrors.CodeNetworkError, \"reader is nil\")",
   "return",
@@ -58,8 +46,9 @@ def ReadFrameFromReader : List String := [
   "end",
   "end",
   "return"
-]
-def WriteFrame : List String := [
+] := rfl
+
+theorem flow_WriteFrame : Gen.Flow.WriteFrame = [
   "if conn == nil",
   "return coreerrors.New(coreerrors.CodeNetworkError, \"connection is nil\")",
   "end",
@@ -76,8 +65,9 @@ def WriteFrame : List String := [
   "return coreerrors.Wrap(err, coreerrors.CodeNetworkError, \"failed to write frame\")",
   "end",
   "return nil"
-]
-def WriteFrameToWriter : List String := [
+] := rfl
+
+theorem flow_WriteFrameToWriter : Gen.Flow.WriteFrameToWriter = [
   "if w == nil",
   "return coreerrors.New(coreerrors.CodeNetworkError, \"writer is nil\")",
   "end",
@@ -97,24 +87,27 @@ def WriteFrameToWriter : List String := [
   "end",
   "end",
   "return nil"
-]
-def TunnelIDFromString : List String := [
+] := rfl
+
+theorem flow_TunnelIDFromString : Gen.Flow.TunnelIDFromString = [
   "var id [16]byte",
   "if len(s) > 16",
   "s = s[:16]",
   "end",
   "copy(id[:], s)",
   "return id, nil"
-]
-def TunnelIDToString : List String := [
+] := rfl
+
+theorem flow_TunnelIDToString : Gen.Flow.TunnelIDToString = [
   "for i, b := range id",
   "if b == 0",
   "return string(id[:i])",
   "end",
   "end",
   "return string(id[:])"
-]
-def isConnectionClosedError : List String := [
+] := rfl
+
+theorem flow_isConnectionClosedError : Gen.Flow.isConnectionClosedError = [
   "if err == nil",
   "return false",
   "end",
@@ -134,8 +127,9 @@ def isConnectionClosedError : List String := [
   "end",
   "end",
   "return false"
-]
-def FrameStream_Read : List String := [
+] := rfl
+
+theorem flow_FrameStream_Read : Gen.Flow.FrameStream_Read = [
   "s.readMu.Lock()",
   "defer s.readMu.Unlock()",
   "if s.readEOF",
@@ -197,8 +191,9 @@ def FrameStream_Read : List String := [
   "continue",
   "end",
   "end"
-]
-def FrameStream_Write : List String := [
+] := rfl
+
+theorem flow_FrameStream_Write : Gen.Flow.FrameStream_Write = [
   "s.writeMu.Lock()",
   "defer s.writeMu.Unlock()",
   "if s.writeEOF",
@@ -232,8 +227,9 @@ def FrameStream_Write : List String := [
   "return 0, err",
   "end",
   "return len(p), nil"
-]
-def FrameStream_CloseWrite : List String := [
+] := rfl
+
+theorem flow_FrameStream_CloseWrite : Gen.Flow.FrameStream_CloseWrite = [
   "s.writeMu.Lock()",
   "defer s.writeMu.Unlock()",
   "if s.writeEOF",
@@ -249,8 +245,9 @@ def FrameStream_CloseWrite : List String := [
   "end",
   "s.writeEOF = true",
   "return nil"
-]
-def FrameStream_Close : List String := [
+] := rfl
+
+theorem flow_FrameStream_Close : Gen.Flow.FrameStream_Close = [
   "s.writeMu.Lock()",
   "defer s.writeMu.Unlock()",
   "if s.writeEOF",
@@ -266,7 +263,6 @@ def FrameStream_Close : List String := [
   "end",
   "s.writeEOF = true",
   "return nil"
-]
-end Flow
+] := rfl
 
-end Gen
+end Tunnox.C10.Ties
